@@ -147,7 +147,10 @@ Definition run_case (c : case) : result :=
   | 96 => Ok [IL (match slice_set_int (arg c 0) (arg c 1) (lst c 0) (arg c 2) (arg c 3) with
                   Some d => d | None => lst c 0 end)]
   (* ---- Bit conversions *)
-  | 97 => Ok [IN (if arg c 0 =? 0 then 0 else 1)]
+  (* bit.rs: `From<uN> for Bit` (0 -> Zero, anything else -> One), observed directly; `From<Bit> for uN` of that
+     bit; `From<Bit>` of the two constants Zero, One; `Display` of Zero, One.  Bits are numbered Zero = 0, One = 1. *)
+  | 97 => let b := match arg c 0 with 0 => 0 | _ => 1 end in
+          Ok [IN b; IN (match b with 0 => 0 | _ => 1 end); IN 0; IN 1; IL [48]; IL [49]]
   | _ => OutOfFuel
   end.
 
